@@ -694,6 +694,181 @@ def gen_float_base(rng, tier):
                 yield from emit(B, sg, e)
 
 
+TO_FLOAT_MODES = ["Zero", "Away", "Up", "Down", "HalfEven", "HalfAway"]
+USIZE_MAX = (1 << 64) - 1
+
+
+def _digits(n, B):
+    d = 0
+    while n:
+        n //= B
+        d += 1
+    return d
+
+
+def gen_to_float_code(rng, tier):
+    """`Repr::to_float` (RBig and Relaxed) and `From<Repr> for FBig`, MIRRORED (`.code` ops: real code vs mirrored algorithm,
+    significand / exponent / precision / flag) beside the single-rounding specification op `r.to_float`.  Classes from the
+    branch conditions of the routine: precision 0 (assertion), zero numerator, the no-shift test `num_digits >= precision +
+    den_digits` at -1/0/+1 and far on both sides, B == 2 (shift) vs other bases (power), remainder zero / non-zero, every
+    mode x sign x {just below, at, just above} the half of the FIRST rounding, quotients of p and p+1 digits (second rounding
+    inside convert_int), first-rounding carries (99..9.x), the double-rounding traps (last quotient digit B/2 reached by the
+    first rounding), B^k, B^k +- 1 and k^n +- 1 operands of every digit length, Relaxed representations with a common odd
+    factor, extreme precisions (E1)."""
+    quick = tier == "quick"
+    out = []
+
+    def emit(B, md, num, den, prec, spec=True):
+        if den <= 0:
+            return
+        a = [dec(B), md, hx(num), hx(den), dec(prec)]
+        out.append(Case("r.to_float.code", a))
+        out.append(Case("rx.to_float.code", a))
+        if spec and prec > 0:
+            out.append(Case("r.to_float", a))
+
+    bases = [2, 10, 16, 3]
+    # (a) the no-shift boundary and both sides: numerator of nd+1 digits, denominator of dd+1 digits, precision p with
+    #     nd - dd - p in {-3 .. 3}; remainder zero (den | num) and non-zero
+    for B in bases:
+        for p in ([1, 2, 3, 7] if quick else [1, 2, 3, 4, 5, 7, 8, 16, 20, 33]):
+            for dd in ([0, 1, 5] if quick else [0, 1, 2, 5, 9, 20]):
+                for delta in (-3, -1, 0, 1, 3) if quick else range(-4, 5):
+                    nd = p + dd + delta
+                    if nd < 0:
+                        continue
+                    for _ in range(1 if quick else 3):
+                        den = rng.randrange(B ** dd, B ** (dd + 1))
+                        num = rng.randrange(B ** nd, B ** (nd + 1))
+                        md = rng.choice(TO_FLOAT_MODES)
+                        emit(B, md, signed(rng, num), den, p)
+                        # exact quotient with the same digit counts where possible
+                        qx = max(num // den, 1)
+                        emit(B, md, signed(rng, qx * den), den, p)
+                    # digit-count extremes of both operands: B^k, B^(k+1) - 1
+                    for num in (B ** nd, B ** (nd + 1) - 1, B ** nd + 1):
+                        for den in (B ** dd, B ** (dd + 1) - 1, B ** dd + 1):
+                            if quick and rng.random() < 0.6:
+                                continue
+                            emit(B, rng.choice(TO_FLOAT_MODES), signed(rng, num), den, p)
+    # (b) both roundings steered: quotient = head (p digits) . d (one extra digit) . fraction, fraction in {0, just below /
+    #     at / just above 1/2, tiny, almost 1}; d in {0, 1, B/2 - 1, B/2, B/2 + 1, B - 1}; heads {10..0, 99..9, even, odd}
+    for B in bases:
+        for p in ([1, 2, 5] if quick else [1, 2, 3, 5, 8, 19]):
+            heads = {B ** (p - 1), B ** p - 1, rng.randrange(B ** (p - 1), B ** p) | 1, (rng.randrange(B ** (p - 1), B ** p) // 2) * 2 or B ** (p - 1)}
+            heads = {h for h in heads if B ** (p - 1) <= h < B ** p}
+            for head in sorted(heads):
+                for extra in (0, 1, 2):
+                    ds = [0] if extra == 0 else sorted({0, 1, B // 2 - 1, B // 2, B // 2 + 1, B - 1} & set(range(B)))
+                    for d in ds:
+                        mids = [0] if extra < 2 else [0, B - 1, B // 2]
+                        for mid in mids:
+                            qint = head if extra == 0 else (head * B + d if extra == 1 else (head * B + d) * B + mid)
+                            for den in ([3, 2 * B + 1, 7 * B] if quick else [1, 3, 7, B, 2 * B + 1, B ** 3, 7 * B, (1 << 64) + 13]):
+                                half_lo, half_hi = (den - 1) // 2, den // 2 + 1
+                                fracs = {0, 1, den - 1, half_lo, half_hi}
+                                if den % 2 == 0:
+                                    fracs.add(den // 2)
+                                for fr in sorted(f for f in fracs if 0 <= f < den):
+                                    if quick and rng.random() < 0.55:
+                                        continue
+                                    num = qint * den + fr
+                                    sh = rng.choice([0, 0, 1, -1, 4, -4])
+                                    n2, d2 = (num * B ** sh, den) if sh >= 0 else (num, den * B ** -sh)
+                                    emit(B, rng.choice(TO_FLOAT_MODES), signed(rng, n2), d2, p)
+    # (c) E2: B^k, B^k +- 1, k^n +- 1 operands of every length over small precisions; Relaxed with a common odd factor
+    for B in bases:
+        for k in (range(0, 24, 1) if quick else range(0, 70)):
+            for num, den in ((B ** k + 1, B ** (k // 2) + 1), (B ** k - 1, 3), (B ** k, B ** (k // 3) * 7), (3 * (B ** k + 1), 3 * 5),
+                             (1, B ** k + 1), (B ** k - 1, B ** k + 1), (7 ** (k % 23 + 1) + 1, B ** k)):
+                if num <= 0 or (quick and rng.random() < 0.5):
+                    continue
+                emit(B, rng.choice(TO_FLOAT_MODES), signed(rng, num), den, rng.choice([1, 2, 3, 4, 9, 17]))
+    for kb in (range(2, 64, 5) if quick else range(2, 130)):
+        k = rng.getrandbits(kb) | (1 << (kb - 1)) | 1
+        for n in (2, 3):
+            for dlt in (-1, 0, 1):
+                emit(rng.choice(bases), rng.choice(TO_FLOAT_MODES), signed(rng, k ** n + dlt), rng.choice([1, k, k + 2, 3 * k]), rng.choice([1, 3, 8, 20, 40]))
+    # (d) random
+    for _ in range(150 if quick else 30000):
+        B = rng.choice(bases)
+        emit(B, rng.choice(TO_FLOAT_MODES), signed(rng, rng.getrandbits(rng.randrange(1, 200)) + 1), rng.getrandbits(rng.randrange(1, 150)) + 1,
+             rng.choice([1, 2, 3, 5, 10, 30, 64, 65, 128]))
+    # (e) E1: precision extremes.  0 -> assertion; 1, W-1, W, W+1, 2W -> values; usize::MAX - k with a one-digit denominator ->
+    #     the allocation of the shifted numerator is refused; with a longer denominator and k < its digit count -> the usize
+    #     addition `precision + den_digits` overflows (debug build).  (2^31 .. 2^63: memory proportional to the precision.)
+    for B in bases:
+        for num, den in ((0, 1), (1, 3), (-22, 7), (B ** 5 + 1, B ** 2 + 1)):
+            for p in (0, 1, 63, 64, 65, 128):
+                emit(B, rng.choice(TO_FLOAT_MODES), num, den, p)
+        for k in (range(0, 41, 5) if quick else range(0, 41)):          # shift >= 2^64 - 64: every shl / pow path refuses the allocation
+            emit(B, rng.choice(TO_FLOAT_MODES), signed(rng, rng.choice([1, 3, B + 1, 12345])), rng.choice([1, B - 1]), USIZE_MAX - k, spec=False)
+        for dl in (2, 3, 5, 40, 140):
+            den = B ** (dl - 1) + 1                     # ilog = dl - 1
+            for k in range(0, dl - 1, 1 if dl < 10 else 17):
+                emit(B, rng.choice(TO_FLOAT_MODES), signed(rng, 3), den, USIZE_MAX - k, spec=False)
+    yield from out
+    # From<Repr> for FBig (mirrored): precision = max digit count, repr_div branches (exact, q = 0, short q, long q)
+    seen = 0
+    for c in out:
+        if c.op != "r.to_float.code" or c.args[4] == dec(0):
+            continue
+        seen += 1
+        if quick and seen % 5:
+            continue
+        yield Case("f.from.rbig.code", c.args[:4])
+        yield Case("f.from.relaxed.code", c.args[:4])
+    for B in bases:
+        for num, den in ((0, 1), (1, 4), (1, 3), (-7, 8), (22, 7), (5, 1), (3, 1000), (1, 1 << 70), (B ** 7, B ** 3), (B ** 3, B ** 7), (6, 4), (-12, 8),
+                         (B ** 9 - 1, B ** 4 + 1), (1, B ** 9 - 1)):
+            for md in TO_FLOAT_MODES:
+                yield Case("f.from.rbig.code", [dec(B), md, hx(num), hx(den)])
+                yield Case("f.from.relaxed.code", [dec(B), md, hx(num), hx(den)])
+
+
+ISIZE_MAX = (1 << 63) - 1
+ISIZE_MIN = -(1 << 63)
+
+
+def extreme_exponents(rng, quick):
+    """E1 for the `isize` exponent of a float source value: 2^31, 2^32 (+-k), 2^61 (x4 = isize overflow for base 16), 2^62,
+    isize::MAX - k and isize::MIN + k (k = 0..130)"""
+    es = {1 << 31, (1 << 31) - 1, (1 << 31) + 1, (1 << 32) - 1, 1 << 32, (1 << 32) + rng.randrange(1, 130), (1 << 61) - 1, 1 << 61, (1 << 61) + 1,
+          1 << 62, (1 << 62) + 5}
+    es |= {-e for e in es}
+    ks = [0, 1, 2, 23, 24, 52, 53, 54, 63, 64, 65, 127, 128, 130] if quick else range(0, 131)
+    for k in ks:
+        es.add(ISIZE_MAX - k)
+        es.add(ISIZE_MIN + k)
+    return sorted(es)
+
+
+def gen_extreme_exponent(rng, tier):
+    """FBig/Repr -> f32/f64, exact-or-refused f32/f64, to_int for source values whose exponent is an extreme `isize`
+    (the value overflows every IEEE format, or is far below the least subnormal): required = the IEEE rounding of the value
+    (+-inf / the mode's rounding of a tiny value, flags), evaluated by the driver at a clamped exponent."""
+    quick = tier == "quick"
+    modes = TO_FLOAT_MODES
+    sigs = [1, 3, (1 << 24) - 1, (1 << 53) - 1, (1 << 60) - 1, (1 << 200) + 1]
+    for e in extreme_exponents(rng, quick):
+        for B in (2, 16, 10, 3):
+            for sg in sigs:
+                if quick and rng.random() < 0.5:
+                    continue
+                if sg % B == 0:
+                    continue
+                s2 = signed(rng, sg)
+                yield Case("f.to_f64", [dec(B), "HalfAway", hx(s2), dec(e)])
+                yield Case("f.to_f32", [dec(B), rng.choice(modes), hx(s2), dec(e)])
+                if rng.random() < 0.3:
+                    yield Case("fr.to_f32", [dec(B), hx(s2), dec(e)])
+                if B == 2:
+                    yield Case("f.tryto_f32", [hx(s2), dec(e)])
+                    yield Case("f.tryto_f64", [hx(s2), dec(e)])
+                if e == ISIZE_MIN:         # (any other huge negative exponent makes to_int build B^|e|: memory proportional to |e|)
+                    yield Case("f.to_int", [dec(B), rng.choice(modes), hx(s2), dec(e)])
+
+
 def ratio_is_fixed():
     try:
         src = open("/repo/rational/src/convert.rs").read()
@@ -711,6 +886,8 @@ def generate(rng, tier):
     yield from gen_int_float(rng, tier, fixed)
     yield from gen_ratio(rng, tier, not ratio_is_fixed())
     yield from gen_float(rng, tier)
+    yield from gen_to_float_code(rng, tier)
+    yield from gen_extreme_exponent(rng, tier)
 
 
 def nontrivial(c):
@@ -723,7 +900,7 @@ READY = True
 JOBS = 12
 USES_GEN = True        # lean/Dashu/Gen/ConvConsts.lean (vlib/extract.py gen_conv_consts: literal constants of into_fNN_internal, to_f32/to_f64,
                        # impl_conversion_to_float!, Repr::to_f32/to_f64 of dashu-ratio), Gen/Misc.lean (THRESHOLD_SMALL_EXP of convert_base),
-                       # Gen/FloatRound*.lean (round_low_part tables behind reprRound)
+                       # Gen/FloatRound*.lean (round_low_part tables behind reprRound), Gen/ConvToFloat.lean (decision expressions + panic sites of Repr::to_float)
 
 THEOREMS = ["Dashu.Props.C06." + n for n in [
     "spec_rounding_is_nearest", "spec_rounding_ties_to_even", "decode_reads_fields_f32", "decode_reads_fields_f64",
@@ -752,7 +929,11 @@ THEOREMS = ["Dashu.Props.C06." + n for n in [
     "rbig_try_to_f64_out_of_bounds_truthful", "rbig_try_to_f32_large_dyadic", "rbig_try_to_f64_large_dyadic",
     "fbig_to_f32_flag_iff_every_mode", "fbig_to_f64_flag_iff_every_mode", "fbig_to_float_error_sign_composition",
     "fbig_base_to_f32_normal_form", "fbig_base_to_f64_normal_form", "fbig_base_to_f64_panic_iff",
-    "fbig_base_to_f32_panic_iff", "conv_constants_regenerated"]]
+    "fbig_base_to_f32_panic_iff", "conv_constants_regenerated",
+    "rbig_to_float_decisions_regenerated", "rbig_to_float_precision_zero_panics", "rbig_to_float_zero",
+    "rbig_to_float_quotient_stage", "rbig_to_float_correct_when_fits", "rbig_to_float_directed_correct",
+    "rbig_to_float_half_modes_counterexample", "fbig_from_rbig_is_one_rounding", "fbig_from_rbig_lossy_counterexample", "fbig_from_ibig_exact", "fbig_from_rbig_source_shape", "rbig_to_float_correct_when_quotient_short",
+    "rbig_to_float_correct_when_quotient_exact"]]
 EXTRA_AXIOMS = {}      # bv_decide was NOT needed: encode_correct is an arithmetic proof (propext, Classical.choice, Quot.sound only)
 
 REFINED = [
@@ -790,6 +971,21 @@ REFINED = [
     "convertBase), executed by the driver as the `.code` ops (real code vs mirrored algorithm, bit for bit, panics included); normal form "
     "(bits = IEEE rounding of convert_base's value, which meets the rounding contract at 24/53 bits) and the exact panic region "
     "(convert_base returned prec+1 bits) proved (fbig_base_to_f32/f64_normal_form, ..._panic_iff)",
+    "rational/src/third_party/dashu_float.rs Repr::to_float (RBig::to_float, Relaxed::to_float): MIRRORED statement by statement "
+    "(Model/Conv/ToFloat.lean: precision assertion, zero, digit counts by ilog, the no-shift test and the shift amount as REGENERATED text, "
+    "B == 2 shift / base.pow multiplication, truncated div_rem, first rounding by round_ratio, convert_int = Repr::new + repr_round, "
+    "and_then flag, >> shift, debug overflow check of precision + den_digits) and executed by the driver as `r.to_float.code` / "
+    "`rx.to_float.code` (one stored representation each: lowest terms / reduce2) against the real code — significand, exponent, precision, "
+    "flag and panics; theorems for ALL inputs: the quotient stage (rbig_to_float_quotient_stage), the result meets the rounding contract of C03 "
+    "for the exact value num/den in EVERY directed mode (rbig_to_float_directed_correct: two roundings in the same directed mode are one) and in "
+    "every mode whenever the first-rounded quotient fits the precision (rbig_to_float_correct_when_fits), in particular — hypotheses on the "
+    "input only — whenever the scaled quotient is below B^p (rbig_to_float_correct_when_quotient_short) or is an integer "
+    "(rbig_to_float_correct_when_quotient_exact); the two nearest modes are not always "
+    "correct (rbig_to_float_half_modes_counterexample = the recorded finding)",
+    "rational/src/third_party/dashu_float.rs From<Repr> for FBig (From<RBig>, From<Relaxed>): mirrored on C03's repr_div "
+    "(fbigFromRat, `f.from.rbig.code` / `f.from.relaxed.code`: value and precision, every mode); linked by theorem to C03: it is ONE rounding of "
+    "num/den at precision max(digits num, digits den, 1) under the target's mode and lossless iff the dropped flag is Exact "
+    "(fbig_from_rbig_is_one_rounding, by Float.reprDiv_contract); kernel-checked lossy instances (fbig_from_rbig_lossy_counterexample)",
     "integer/src/convert.rs try_to_unsigned / unsigned_from_words (all word sizes that are multiples of 8), "
     "integer/src/primitive.rs to_sign_magnitude / try_from_sign_magnitude (all widths), from_unsigned round trip",
 ]
@@ -800,7 +996,12 @@ FRONTIER = [
     "FBig/Repr::to_f32/to_f64 for a base that is no power of two and |exponent| > THRESHOLD_SMALL_EXP (convert_base through ln/exp): spec "
     "only (single rounding of the exact rational value under the documented mode, flags derived from the true error); for the mirrored "
     "branches the SINGLE-rounding value/flag is decided per case against the specification (the code rounds twice: findings)",
-    "RBig::to_float, From<RBig> for FBig: spec only (single rounding of the exact rational value under the documented mode)",
+    "RBig/Relaxed::to_float in the two NEAREST modes (HalfEven, HalfAway) when the quotient stage leaves a non-zero remainder AND the first-rounded "
+    "quotient has more than `precision` digits (scaled quotient >= B^p): the "
+    "mirrored code rounds twice and is proved wrong on concrete inputs; no closed form of the exact bad region is proved (the finding predicate "
+    "re-computes both roundings per case) — the single-rounding value/flag is decided per case against the specification op `r.to_float`",
+    "RBig::to_float with 2^22 < shift < 2^64 - 64 digits (memory proportional to the precision): not driven on either side; the allocation "
+    "refusal beyond that (AllocTooMuch) is transcribed in the driver, not derived from the shl / pow capacity guards (those belong to C16/C17)",
 ]
 RULE = ("Structured, built from the branch conditions of the code. encode/decode: ALL exponents (qmin-N-6 .. emax+6, and the i16 extremes) x "
         "mantissa classes {1, 3, 2^k, 2^k-1, 2^p±1, i32/i64 MIN/MAX} plus, for every mantissa length L and every cut position k (normal cut L-p, "
@@ -818,7 +1019,15 @@ RULE = ("Structured, built from the branch conditions of the code. encode/decode
         "at every regime, decimals d·10^e with |e| <= 400 (1..40 digits), the to_int family with exact halves/near halves. Bases 10, 3, 16 through "
         "every mirrored branch of convert_base::<B,2> (`.code` ops beside the spec ops): every exponent of the small-exponent window -T-1..T+1 x significands of 1..60 digits (multiply / "
         "repr_div with q = 0, short q, long q / long-dividend path), exactly representable quotients and exact ties m·odd^k·B^-k with m of p-1..p+3 and 2p+1 bits and "
-        "their +-1 neighbours, dividends of p+den-1..p+den+2 bits (the repr_div / long-path boundary), the f32/f64 overflow edge. All call forms "
+        "their +-1 neighbours, dividends of p+den-1..p+den+2 bits (the repr_div / long-path boundary), the f32/f64 overflow edge. "
+        "Repr::to_float / From<Repr> for FBig (`.code` ops, RBig and Relaxed separately, beside the spec op): bases {2,3,10,16} x 6 modes x "
+        "the no-shift test num_digits - den_digits - precision in -4..4 with exact and inexact quotients and B^k / B^(k+1)-1 / B^k+1 operands; quotients "
+        "head(p digits).d.mid with d in {0,1,B/2-1,B/2,B/2+1,B-1} and remainder fractions {0, 1, just below / at / just above 1/2, den-1} (both "
+        "roundings steered, carries 99..9, double-rounding traps) over denominators {1,3,7,B,2B+1,B^3,7B,2^64+13}; B^k±1, k^n±1 (k of every bit "
+        "length 2..129) operands; precisions 0 (assertion), 1, 63..65, 128, usize::MAX-k (k <= 40: allocation refused; k below the digit count of a "
+        "long denominator: usize addition overflow). Extreme isize exponents of the float source value (E1): +-2^31, +-2^32(+-k), +-2^61(+-1), "
+        "+-2^62, isize::MAX-k, isize::MIN+k (k = 0..130) x bases {2,16,10,3} x significands of 1, 2, 24, 53, 60, 201 bits for "
+        "to_f32 (all modes) / to_f64 / Repr::to_f32 / TryFrom<FBig> for f32/f64, and to_int at isize::MIN. All call forms "
         "(owned/ref, RBig/Relaxed, FBig/Repr) are evaluated and must agree. Non-trivial := some operand is neither 0 nor ±1; distinct := distinct (op,args).")
 EXPLANATION = ("Centre: a machine-checked proof that f32/f64::encode of the current tree equals the IEEE-754 round-to-nearest-even specification "
                "(overflow, gradual underflow, ±0) with the true error sign for EVERY (mantissa, exponent) — the statement that exposed two mask "
@@ -844,13 +1053,19 @@ LEVEL_TEXT = ("Lean 4 theorems (no bounds on mantissa, exponent, integer length 
               "compared bit for bit with the real code, with a proved normal form and panic region. Tie A: the literal constants of into_fNN_internal, "
               "the to_f32/to_f64 precisions, the bounds of impl_conversion_to_float! and the quotient width / exits of dashu-ratio's Repr::to_f32/to_f64 "
               "are regenerated from the source on every run (Gen/ConvConsts.lean) and proved equal to the models' constants "
-              "(conv_constants_regenerated); the panic sites of the width assertion are the regenerated strings.")
+              "(conv_constants_regenerated); the panic sites of the width assertion are the regenerated strings. Round 5: RBig/Relaxed::to_float "
+              "and From<RBig|Relaxed> for FBig are mirrored and compared digit for digit with the real code; to_float is PROVED correctly rounded "
+              "and truthfully flagged (C03's rounding contract for the exact rational) for all inputs in the four directed modes and, in every mode, "
+              "whenever the first-rounded quotient fits the precision; its decision expressions and panic sites are regenerated (Gen/ConvToFloat.lean, "
+              "rbig_to_float_decisions_regenerated); From<RBig> for FBig is one rounding at max digit count (linked to C03's repr_div theorem).")
 LEVEL_NOTE = ("No bv_decide: all theorems depend only on propext/Classical.choice/Quot.sound (counterexamples: `decide +kernel`, propext only). "
               "Trusted: Lean kernel; the correspondence harness and generators (sampling) for model<->code; Rust cast/intrinsic semantics as "
               "listed in assumptions. The `*AsIs` models describe the pinned pre-fix code and occur only in counterexample theorems; the `.asis` "
               "ops that tie them to the code are generated only while the corresponding defect text is still present in /repo. Known findings "
               "(design-level, unrepaired): RBig::to_float double rounding; FBig->f32/f64 flags, subnormal double rounding and non-binary-base "
-              "assertions; From<RBig> for FBig lossy. Observation (not a violation of C06 as worded): to_f32_fast/to_f64_fast can be up to 3 units off "
+              "assertions; From<RBig> for FBig lossy; isize overflow of the exponent arithmetic for source values with extreme exponents "
+              "(round 5; proposed_fixes/c06-extreme-exponent-to-float.diff). For those inputs the specification is evaluated at a clamped exponent "
+              "(|e| > 8192 + 2·bit_len: the IEEE result no longer depends on e) — a driver-level device, not a theorem. Observation (not a violation of C06 as worded): to_f32_fast/to_f64_fast can be up to 3 units off "
               "(doc says 1); TryFrom<UBig> for f32 refuses representable integers above 2^25 (conservative); to_f32_small has the u64::MAX "
               "saturation issue on 32-bit-word builds (not reachable with 64-bit words).")
 TECHNIQUE = "Lean 4 refinement proofs (arithmetic over Nat/Int, generic in the format constants) + kernel-decided counterexamples + differential correspondence model/spec vs real code"
